@@ -13,6 +13,9 @@ Addrs == {
   [s |-> "10.1.2.4",          a |-> V4(10, 1, 2, 4)],
   [s |-> "10.1.3.3",          a |-> V4(10, 1, 3, 3)],
   [s |-> "10.2.0.0",          a |-> V4(10, 2, 0, 0)],
+  [s |-> "10.0.0.7",          a |-> V4(10, 0, 0, 7)],
+  [s |-> "10.0.1.5",          a |-> V4(10, 0, 1, 5)],
+  [s |-> "2001:db8:0:1::1",   a |-> V6(<<8193, 3512, 0, 1, 0, 0, 0, 1>>)],
   [s |-> "11.0.0.0",          a |-> V4(11, 0, 0, 0)],
   [s |-> "9.255.255.255",     a |-> V4(9, 255, 255, 255)],
   [s |-> "127.0.0.1",         a |-> V4(127, 0, 0, 1)],
@@ -32,6 +35,8 @@ Nets == {
   [s |-> "0.0.0.0/0",        k |-> "net", fam |-> 4, g |-> <<0, 0, 0, 0>>, n |-> 0],
   [s |-> "10.0.0.0/8",       k |-> "net", fam |-> 4, g |-> <<10, 0, 0, 0>>, n |-> 1],
   [s |-> "10.1.2.0/24",      k |-> "net", fam |-> 4, g |-> <<10, 1, 2, 0>>, n |-> 3],
+  [s |-> "10.0.0.0/24",      k |-> "net", fam |-> 4, g |-> <<10, 0, 0, 0>>, n |-> 3],      \* same base address as 10.0.0.0/8, narrower
+  [s |-> "2001:db8::/64",    k |-> "net", fam |-> 6, g |-> <<8193, 3512, 0, 0, 0, 0, 0, 0>>, n |-> 4],   \* same base address as 2001:db8::/32, narrower
   [s |-> "10.1.2.3/32",      k |-> "net", fam |-> 4, g |-> <<10, 1, 2, 3>>, n |-> 4],
   [s |-> "::/0",             k |-> "net", fam |-> 6, g |-> Z6, n |-> 0],
   [s |-> "2001:db8::/32",    k |-> "net", fam |-> 6, g |-> <<8193, 3512, 0, 0, 0, 0, 0, 0>>, n |-> 2],
